@@ -10,14 +10,14 @@ PROPERTY = 'C13'
 LABELS = ['C13.watch_sees_getattr', 'C13.listed', 'C13.same_object', 'C13.default_equals_attr', 'C13.values_agree', 'C13.inst_values_agree',
           'C13.inst_same_names', 'C13.watchable', 'C13.serializable_names', 'C13.repr_names', 'C13.no_extra']
 EXPLANATION = ("Harness c13.prog: k operations (namespace reads that populate caches, class-level sets, add_parameter, "
-               "instance creation, instance sets) at symbolic positions of a class hierarchy (chain or diamond); after "
+               "instance creation, instance sets, instance-level namespace reads that create the per-instance Parameter objects) at symbolic positions of a class hierarchy (chain or diamond); after "
                "every step every class and instance is compared: inspect.getattr_static/getattr vs .param[...], "
                "`in`, iteration, values(), watch(), serialize_parameters(), repr.")
 OUTSIDE = ["dynamic (callable) values", "deleting attributes", "hierarchies other than the chain A>B>C (C redeclares x) and the "
            "diamond A>(L,R)>J (L redeclares x)", "more than 2 added parameters"]
 ASSUMPTIONS = ["values are ints in Integer parameters without bounds"]
 STUBS = ["JSON text is abstract: Parameter._serializers['json'] replaced by a subclass of the real JSONSerialization whose dumps/loads are the identity (the serializer loop and per-type hooks still run)"]
-N_OPS = 7
+N_OPS = 8
 
 
 def _mk(shape):
@@ -123,6 +123,10 @@ def _body(classes, shape, k, each, steps, watch):
             objs[-1].x = v
         elif o == 5:    # add_parameter overriding an existing name
             K.param.add_parameter('z', param.Integer(default=v))
+        elif o == 7:    # instance-level namespace read: creates the per-instance Parameter objects
+            assume(len(objs) > 0)
+            ob = objs[-1]
+            list(ob.param); ob.param['x']; ob.param.z; 'x' in ob.param
         elif o == 6:    # rejected class-level set (out of bounds): whatever it leaves behind must stay consistent
             try:
                 K.x = 5000
@@ -176,6 +180,7 @@ def _ranges(consts):
     for i in (1, 2, 3, 4):
         r['o%d' % i] = (0, N_OPS - 1)
         r['t%d' % i] = (0, ncls - 1)
+        r['v%d' % i] = (-1000, 1000)      # the declared hard bounds of x (symbolic-value shards)
     return r
 
 
@@ -190,7 +195,7 @@ def shards(tier):
         for shape in (0, 1):
             ncls = 3 if shape == 0 else 4
             for o1 in range(N_OPS):
-                if o1 == 4:
+                if o1 in (4, 7):
                     continue   # needs an instance first
                 for t1 in range(ncls):
                     c = dict(shape=shape, k=k, each=each, symv=symv, watch=each, o1=o1, t1=t1)
@@ -208,4 +213,4 @@ def bounds(tier):
                          if tier == 'quick' else
                          'k=4 opcode/target programs with constant values; k=2 with symbolic unbounded int values (300 s budget per shard, exhaustion not expected)',
                 hierarchies=['chain A>B>C (C redeclares x)', 'diamond A>(L,R)>J (L redeclares x)'],
-                opcodes=['namespace read', 'class set', 'add_parameter new', 'create instance', 'instance set', 'add_parameter overriding z', 'rejected class set'])
+                opcodes=['namespace read', 'class set', 'add_parameter new', 'create instance', 'instance set', 'add_parameter overriding z', 'rejected class set', 'instance-level namespace read'])
